@@ -213,6 +213,27 @@ def is_int(t):
     return False
 
 
+def is_boolarr(t):
+    if t[0] == 'nd':
+        t = t[1]
+    tag = t[0]
+    if tag == 'col':
+        return t[2] == 'is_burst'
+    if tag in ('cmp0', 'band', 'bor', 'binv'):
+        return True
+    if tag == 'atom':
+        return t[2] == 'boolarr'
+    if tag == 'slice':
+        return is_boolarr(t[1])
+    if tag == 'idx' and t[2][0] in ('rowsel',):
+        return is_boolarr(t[1])
+    if tag == 'not' and t[1][0] == 'cmp':
+        return is_boolarr(t[1][2]) and is_boolarr(t[1][3])
+    if tag == 'cmp' and t[1] in ('Eq',):
+        return is_boolarr(t[2]) and is_boolarr(t[3])
+    return False
+
+
 def is_intarr(t):
     if t[0] == 'nd':
         t = t[1]
@@ -429,6 +450,10 @@ def cmp_(op, a, b):
             return ('const', op == 'IsNot')
     if op in ('Gt', 'GtE') and _numericish(a) and _numericish(b) and not (isconst(a) and not isnum(a)) and not (isconst(b) and not isnum(b)):
         return ('cmp0', op, lin(0, [(a, 1), (b, -1)]))
+    if op in ('Eq', 'NotEq') and (a[0] == 'binv') != (b[0] == 'binv') and is_boolarr(a[1] if a[0] == 'binv' else a) and is_boolarr(b[1] if b[0] == 'binv' else b):
+        # element-wise on boolean arrays:  (~x == y)  is  (x != y)
+        x, y = (a[1], b) if a[0] == 'binv' else (a, b[1])
+        return cmp_('NotEq' if op == 'Eq' else 'Eq', x, y)
     if op in ('Eq', 'NotEq', 'Is', 'IsNot') and key(a) > key(b):
         a, b = b, a
     if op in ('NotEq', 'IsNot', 'NotIn'):
@@ -740,6 +765,35 @@ def renorm(y):
 def strip_nd(t):
     """drop the transparent list->ndarray wrappers before comparing values"""
     return subst(t, lambda x: x[1] if x[0] == 'nd' else None)
+
+
+def parity_slice(fm):
+    """[f(X[i]) for i, _ in enumerate(X) if i % 2 == c]  ==  f(X[c::2])   (element-wise f)"""
+    if fm[0] != 'filtermap':
+        return None
+    k, cond, elt = fm[1], fm[2], fm[3]
+    if k[0] != 'range' or k[1] != ('const', 0) or k[3] != ('const', 1):
+        return None
+    lvs = {x for x in walk(cond) if x[0] == 'lv' and x[1] == k}
+    if len(lvs) != 1:
+        return None
+    lv = next(iter(lvs))
+    c = None
+    for cc in (0, 1):
+        if cond == cmp_('Eq', ('mod', lv, ('const', 2)), ('const', cc)):
+            c = cc
+    if c is None:
+        return None
+    srcs = {x for x in walk(elt) if x[0] == 'idx' and x[2] == lv}
+    if len(srcs) != 1:
+        return None
+    src = next(iter(srcs))
+    if length(src[1]) != k[2]:
+        return None
+    out = subst(elt, lambda x: slice_(src[1], ('const', c), NONE, ('const', 2)) if x == src else None)
+    if any(x == lv for x in walk(out)):
+        return None
+    return out
 
 
 def contains(t, pred):
